@@ -386,7 +386,7 @@ def parse_tx_word(line):
 # --------------------------------------------------------------------------------------------------
 # the implementation voice: the tap binary
 
-ERRS = [("invalid address prefix", "ERR invalid-hrp"), ("not parsable hex value", "ERR key-hex"), ("must be 32 bytes", "ERR key-length"),
+ERRS = [("invalid address prefix", "ERR invalid-hrp"), ("cannot compute the taproot signature hash of a transaction with", "ERR input-count"), ("not parsable hex value", "ERR key-hex"), ("must be 32 bytes", "ERR key-length"),
         ("invalid script count", "ERR script-count"), ("missing scripts", "ERR missing-scripts"),
         ("invalid script index", "ERR script-index"), ("Unable to generate tapscript commitment tree", "ERR tree"),
         ("Spending leaf was not derived", "ERR spending-leaf"), ("pubkey invalid (parse failed)", "ERR key-parse"),
@@ -743,8 +743,9 @@ def run_cases(ctx, stream, cases, tapbin, with_tx=True, workers=12):
 
 
 def run_multi_input(ctx, cases, tapbin):
-    """the documented limitation: with more than one input in the spending transaction `Instance::calc_sighash` dies on the
-    assertion in `PrecomputedTransactionData::Init` (implementation vs model; the specification has a digest, tap reports none)"""
+    """with more than one input in the spending transaction `Instance::calc_sighash` refuses ("cannot compute the taproot
+    signature hash of a transaction with N inputs", exit 1; before the fix it died on an assertion of
+    `PrecomputedTransactionData::Init`).  Implementation vs model; the specification has a digest, tap reports none."""
     for c in cases:
         pl = python_line(c.key, c.scripts, None)
         m = re.match(r"key=([0-9a-f]{64}) ", pl or "")
@@ -758,8 +759,11 @@ def run_multi_input(ctx, cases, tapbin):
         lines.append(f"TAPSIGHASH {ser_tx(*tx).hex()} {ser_tx(*txin).hex()}")
         impl.append(c.impl)
     model = ctx.driver(lines, "model")
-    ctx.compare("sighash-multi-input", lines, impl, model, None, observable=lambda x: "ABORT" if x.startswith("ABORT") else x,
-                nontrivial=lambda c_, i_: i_.startswith("ABORT"))
+    ctx.compare("sighash-multi-input", lines, impl, model, None, nontrivial=lambda c_, i_: i_ == "ERR input-count")
+    for l, i in zip(lines, impl):
+        if i != "ERR input-count":
+            ctx.violation(l, {"stream": "sighash-multi-input", "why": "a spending transaction with several inputs is not refused with the "
+                              "input-count diagnostic (an abort here is the assertion in PrecomputedTransactionData::Init)", "impl": i})
 
 
 # --------------------------------------------------------------------------------------------------
